@@ -14,8 +14,8 @@ use crate::c08::sample_of;
 
 pub const RULE: &str = "case = a C08 scenario (1..4 connections, generated global event order) in \
 which connections may be faulty: a frame that is garbage / invalid UTF-8 / JSON of the wrong shape \
-/ an unknown method / parameters of the wrong types / a missing parameter / an ill-typed flag at \
-any position of the script, a last frame without terminator followed by EOF, EOF or a transport \
+/ an unknown method / parameters of the wrong types / a missing parameter / an ill-typed flag / \
+blank (a lone terminator or white space only) at any position of the script, a last frame without terminator followed by EOF, EOF or a transport \
 read error after the last byte (anywhere relative to the other events), transport write failure \
 from the k-th write on (in a second lane also on connections with streaming calls, i.e. at any stream item); plus one healthy connection that arrives after everything else. Oracle: \
 (1) relational - the scenario is run again with the faulty connections absent and every healthy \
